@@ -358,6 +358,10 @@ func topFrame(stk string) string {
 	return ""
 }
 
+// TopFrame names the innermost function of the module under test on the current stack
+// (called from a deferred function while panicking, that is where the panic was raised).
+func TopFrame() string { return topFrame(string(debug.Stack())) }
+
 // Go starts f as a new simulated task (or a plain goroutine outside a simulation).
 func Go(site int32, f func()) {
 	s := cur
